@@ -1,7 +1,7 @@
 (* C08 -- property theorems only.  Bodies live in Proofs.v / Code.v.
    Angles are in radians inside [true_sep]; [from_rad uout] converts to the requested unit. *)
 From Coq Require Import Reals Lra QArith Qreals List.
-From EsVerif.C08 Require Import Gen Model Spec Proofs Code.
+From EsVerif.C08 Require Import Gen Model Spec Proofs Code SrcLib Src SrcProofs.
 Open Scope R_scope.
 
 (* The two formulas of the chord-based function are the great-circle angle of unit vectors. *)
@@ -37,6 +37,28 @@ Proof. exact sphdist_code_exact. Qed.
 Theorem C08_gcirc_code_exact : forall ra1 dec1 ra2 dec2,
   gcirc_code ra1 dec1 ra2 dec2 = true_sep Deg ra1 dec1 ra2 dec2.
 Proof. exact gcirc_code_exact. Qed.
+
+(* The element-wise reading of the SOURCE TEXT of _thetaphi2xyz / eq2xyz / sphdist / gcirc (Src.v,
+   regenerated from esutil/coords.py of the tree under check on every run) is the model ... *)
+Theorem C08_source_is_model :
+  (forall theta phi, thetaphi2xyz_src theta phi = thetaphi2xyz theta phi)
+  /\ (forall u ra dec, eq2xyz_src u ra dec = eq2xyz u ra dec)
+  /\ (forall uin uout ra1 dec1 ra2 dec2,
+        sphdist_src uin uout ra1 dec1 ra2 dec2 = sphdist_code uin uout ra1 dec1 ra2 dec2)
+  /\ (forall ra1 dec1 ra2 dec2, gcirc_src ra1 dec1 ra2 dec2 = gcirc_code ra1 dec1 ra2 dec2).
+Proof.
+  split; [exact thetaphi2xyz_src_eq|]. split; [exact eq2xyz_src_eq|].
+  split; [exact sphdist_src_eq | exact gcirc_src_eq].
+Qed.
+
+(* ... hence the source formulas return the true great-circle angle for all real inputs, and the
+   vectors they are computed from are unit vectors. *)
+Theorem C08_source_exact :
+  (forall uin uout ra1 dec1 ra2 dec2,
+     sphdist_src uin uout ra1 dec1 ra2 dec2 = from_rad uout (true_sep uin ra1 dec1 ra2 dec2))
+  /\ (forall ra1 dec1 ra2 dec2, gcirc_src ra1 dec1 ra2 dec2 = true_sep Deg ra1 dec1 ra2 dec2)
+  /\ (forall u ra dec, is_unit (eq2xyz_src u ra dec)).
+Proof. split; [exact sphdist_src_exact|]. split; [exact gcirc_src_exact | exact eq2xyz_src_unit]. Qed.
 
 (* Range: [0,180] degrees, i.e. [0,PI] when radians are requested. *)
 Theorem C08_range : forall uin ra1 dec1 ra2 dec2,
@@ -105,6 +127,13 @@ Theorem C08_certificate_ties_model :
   /\ (forall tol ra1 dec1 ra2 dec2 out,
      sep_ok Deg Rad tol ra1 dec1 ra2 dec2 out -> gcirc_cert tol ra1 dec1 ra2 dec2 out).
 Proof. split; [exact sphdist_cert_intro | exact gcirc_cert_intro]. Qed.
+
+Theorem C08_certificate_ties_source :
+  (forall uin uout tol ra1 dec1 ra2 dec2 out,
+     sep_ok uin uout tol ra1 dec1 ra2 dec2 out -> sphdist_src_cert uin uout tol ra1 dec1 ra2 dec2 out)
+  /\ (forall tol ra1 dec1 ra2 dec2 out,
+     sep_ok Deg Rad tol ra1 dec1 ra2 dec2 out -> gcirc_src_cert tol ra1 dec1 ra2 dec2 out).
+Proof. split; [exact sphdist_src_cert_intro | exact gcirc_src_cert_intro]. Qed.
 
 (* Soundness of the exact-rational checkers run on the implementation's outputs. *)
 Theorem C08_checkers_sound :
